@@ -7,7 +7,7 @@ CONSTANTS
   BoundPairs = {}
   MaxKVs = 15
   MinKVs = 7
-  CheckDrift = FALSE
+  CheckDrift = TRUE
 CONSTRAINT HWM
 POSTCONDITION Accepted
 CHECK_DEADLOCK FALSE
